@@ -8,7 +8,7 @@
   through the matcher's walk code (`relationWalk`, `Ctx.ancestors`, `Ctx.tagDescendants`, …).
 
   Taken from the model because they are the business of C11/C12 (name and namespace rules):
-  `matchTag`, `matchAttributeName`, `Ctx.attrByName`, `sameType`, `nvalJoin`.
+  `matchTag`, `matchAttributeValues`, `Ctx.attrByName`, `sameType`, `nvalJoin`.
   The attribute VALUE tests are the independent string predicates of `Spec/CssValue.lean`.
 
   Mathlib-free and executable.
@@ -173,20 +173,18 @@ def caseInsensitive (c : Ctx) (name : Str) (f : CaseFlag) : Bool :=
   | .s => false
   | .none => lower name == [116, 121, 112, 101] && !c.isXml
 
-/-- `[ns|name]`, `[ns|name op value flag]`. -/
+/-- `[ns|name]`, `[ns|name op value flag]`: SOME attribute designated by `ns|name` (there may be
+    several for `*|name`: one per namespace, and the one in no namespace) satisfies the value
+    test; `[a!=v]` is `:not([a=v])`, the negation of that.  Which attributes `ns|name` designates
+    is delegated to the model (`matchAttributeValues`; that is C12's business); the value tests
+    are the independent predicates of `Spec/CssValue.lean`. -/
 def satAttr (c : Ctx) (e : Elem) (ns name : Str) (test : Option AttrTest) : Bool :=
-  match matchAttributeName c e name ns with
-  | none =>
-    -- no such attribute: only `!=` holds
-    (match test with
-     | some t => t.op == .ne
-     | none => false)
-  | some v =>
-    match test with
-    | none => true
-    | some t =>
-      let r := valTest t.op t.value (caseInsensitive c name t.flag) (nvalJoin v)
-      if t.op == .ne then !r else r
+  let vals := matchAttributeValues c e name ns
+  match test with
+  | none => vals.any fun _ => true
+  | some t =>
+    let r := vals.any fun v => valTest t.op t.value (caseInsensitive c name t.flag) (nvalJoin v)
+    if t.op == .ne then !r else r
 
 /-- `:root`: an element — so not the document object — with no parent element. -/
 def isRootElem (l : Loc) : Bool := !l.isDoc && (parentElem l).isNone
